@@ -536,12 +536,18 @@ def cfStep (st : CfSt) (line : String) (t : Tally) : Except String (CfSt × Tall
     let wantErr := match st.outcome with | "ok" => "nil" | "err" => "err" | "nf" => "nf" | _ => "panic"
     let parts := res.splitOn ","
     let kind := parts.headD ""
-    let kvs := (parts.drop 1).filterMap (fun p => match p.splitOn "=" with | [a, b] => some (a.toNat!, b.toNat!) | _ => none)
+    let kvs := (parts.drop 1).filterMap (fun p => match p.splitOn "=" with
+      | [a, b] => (match a.toNat?, b.toNat? with | some x, some y => some (x, y) | _, _ => none)
+      | _ => none)
     let st := { st with calls := (start.toNat!, end_.toNat!) :: st.calls }
     if st.outcome == "pan" then
       if res == "panic" || err == "panic" || err == "other" || err == "nil" then .ok (st, t) else .error s!"C08: caller got {res} {err} from a panicking loader"
     else if st.outcome == "ok" then
+      let afterTok := ((parts.find? (·.startsWith "after=")).map (fun p => (p.drop 6).toString)).getD "-"
+      let gotV := (kvs.head?.map (·.2)).getD 0
       if err != "nil" then .error s!"C08: caller got error {err} although the load succeeded"
+      else if kind == "get" && afterTok != "-" && afterTok != s!"{gotV}:true" then
+        .error s!"C10/C02: Get returned {gotV} but the same goroutine's GetIfPresent right afterwards saw {afterTok} (nothing removes entries in this round): the loaded value was returned before it was cached"
       else match kvs.find? (fun (k, v) => v != st.base + k) with
         | some (k, v) => .error s!"C08/C10: caller received {v} for key {k}, the loader returned {st.base + k}"
         | none => .ok (st, t)
